@@ -1,6 +1,7 @@
 package checks
 
 import (
+	"syscall"
 	"context"
 	"os"
 	"runtime"
@@ -43,6 +44,10 @@ func runC10(c *Ctx) bool {
 		r := gen.New(c.Seed, 1001, uint64(j))
 		cs := &Case{Idx: j, Kind: "wellformed", Seed: r.Uint64()}
 		nRoots := []int{1, 2, 3, 5, 12, 40}[r.Intn(6)]
+		if j%32 == 11 {
+			nRoots = []int{70, 140}[(j/32)%2] // more roots than any batch or pool size
+			cs.AddTag("many-roots")
+		}
 		var f model.Forest
 		for len(f) < nRoots {
 			blk := gen.RandForest(r, r.Range(1, 8), 4, []int{gen.ClassPlain, gen.ClassExt, gen.ClassUnicode, gen.ClassBullet}, []int{0, 20}[r.Intn(2)])
@@ -73,6 +78,20 @@ func runC10(c *Ctx) bool {
 				f = append(f, gen.FromDepths(depths, names)[0])
 			}
 			cs.AddTag("large-blocks")
+		}
+		if j%396 == 36 || j%396 == 37 { // (indices whose operation is text / branch: j%12 is 0 or 1)
+			// two roots whose rendering exceeds 64 KiB each, next to small ones (judged with a slow writer)
+			f = nil
+			for k := 0; k < 8; k++ {
+				n := []int{2600, 3, 2600, 2, 2600, 2600, 4, 2600}[k]
+				root := &model.Node{Name: "huge" + strconv.Itoa(k)}
+				for i := 1; i < n; i++ {
+					root.Kids = append(root.Kids, &model.Node{Name: "n" + strconv.Itoa(k) + "-" + strconv.Itoa(i) + "-padding-padding-"})
+				}
+				f = append(f, root)
+			}
+			cs.AddTag("large-blocks")
+			cs.AddTag("huge-blocks")
 		}
 		c08Safe(f)
 		if r.Chance(1, 6) && len(f) > 1 {
@@ -227,6 +246,9 @@ func c10RunW(c *Ctx, op string, doc []byte, massive bool, profile int, seed uint
 		w.Yield, wl.yield = true, true
 		if seed%2 == 0 && len(doc) < 4000 {
 			w.Delay = 20 * time.Microsecond // widens the window in which a second writer would overlap
+		}
+		if len(doc) > 100000 {
+			w.DelayPerKB = 1000 * time.Microsecond // a consumer slower than the pipeline (terminal, pager): about 1 MB/s
 		}
 	case 2:
 		rd.Chunk, rd.Yield = 1+int(seed%17), true
@@ -405,12 +427,22 @@ func evalC10(c *Ctx, cs *Case) {
 	if c.Quick() {
 		procs = []int{procs[r.Intn(4)], procs[r.Intn(4)]}
 	}
+	if cs.HasTag("many-roots") {
+		procs = []int{[]int{1, 4, 16}[r.Intn(3)]}
+		if !c.Quick() {
+			procs = []int{1, 16}
+		}
+		profiles = []int{0, 1, 3}
+	}
 	if cs.HasTag("large-blocks") {
 		// big documents: fewer executions, the profiles that matter for torn blocks
 		procs = []int{[]int{2, 4, 16}[r.Intn(3)]}
 		profiles = []int{0, 1, 3}
 	}
-	if cs.HasTag("overlong-line") && c.Quick() {
+	if cs.HasTag("huge-blocks") {
+		profiles = []int{1, 1, 1, 0} // the slow consumer three times
+	}
+	if cs.HasTag("overlong-line") {
 		// the question is only "error iff": one processor (where a lost error is most likely) and
 		// the machine's own count, three profiles
 		procs = []int{1, 16}
@@ -520,6 +552,39 @@ func evalC10(c *Ctx, cs *Case) {
 				c.Sample(op, map[string]any{"doc": trunc(string(doc), 300), "gomaxprocs": p, "profile": prof, "hook_trace_head": tr, "simple_err": errStr(ref.err)})
 			}
 		}
+	}
+	// ---- mkdir into a target that does not exist yet, under a permissive process umask: the
+	// directories made for the target itself must come out as in the simple mode (kinds AND modes)
+	if (op == "mkdir" || op == "mkdir.noext") && ref.err == nil && cs.Seed%3 == 0 {
+		for _, um := range []int{0o002, 0} {
+			old := syscall.Umask(um)
+			var snaps [2]mon.Snapshot
+			var errs [2]error
+			for mi, massive := range []bool{false, true} {
+				j, err := mon.NewJail(c.TmpDir, true)
+				if err != nil {
+					continue
+				}
+				cs.Entry = op + map[bool]string{true: ",massive", false: ",simple"}[massive]
+				cs.Tags = append(append([]string(nil), baseTags...), "missing-target", "umask="+strconv.FormatInt(int64(um), 8))
+				c.Rejournal(cs)
+				res, _ := c10Run(c, op, doc, massive, 0, r.Uint64(), j.Target+"/not/there/yet")
+				errs[mi] = res.err
+				snaps[mi], _ = mon.Snap(j.Target)
+				j.Remove()
+			}
+			syscall.Umask(old)
+			c.Eval(gen.HashString(string(doc)+"\x00umask"+op+strconv.Itoa(um)), true)
+			c.Count("missing_target_under_umask_pairs", 1)
+			if errs[0] == nil && errs[1] == nil {
+				if d := mon.Diff(snaps[0], snaps[1]); len(d) != 0 {
+					c.Violation(cs, "result.differs", op+"/missing-target", map[string]any{"doc": trunc(string(doc), 400), "umask": um, "diff_simple_to_massive": d})
+				}
+			} else if (errs[0] == nil) != (errs[1] == nil) {
+				c.Violation(cs, "error-iff.differs", op+"/missing-target", map[string]any{"doc": trunc(string(doc), 400), "simple_err": errStr(errs[0]), "massive_err": errStr(errs[1])})
+			}
+		}
+		cs.Tags = append([]string(nil), baseTags...)
 	}
 }
 
